@@ -8,7 +8,7 @@ EXPLANATION = ('C05: total intensity over one full period equals the input power
                'amplitude/OPD/wavelength/focal length/input pixel scale and the output pixel scale tied to them so that 1/alpha = N exactly; '
                'roots of unity are atoms constrained by linear theorems (subgroup/coset sums vanish) and z3 decides the Parseval identity.')
 BOUNDS = {
-    'quick': 'periods N_r, N_c in 1..5 independently; pupil <= min(3, N) per axis, whole or as two equal-shape segments; oversample in {1,2,3} dividing N; nested windows for pupils <= 2x2; three tilted segments with bridging 2x2 windows on a 2x8 period (4 storage orders, sampled points); normalize_power on <= 3x3, two targets in a row',
+    'quick': 'periods N_r, N_c in 1..5 independently; pupil <= min(3, N) per axis, whole or as two equal-shape segments; oversample in {1,2,3} dividing N; nested windows for pupils <= 2x2; three tilted segments with bridging 2x2 windows on a 2x8 period (4 storage orders, sampled points); normalize_power on <= 3x3, two targets in a row; the full-period transform after seven other samplings / shifts / offsets of the same shapes (concrete-only)',
     'thorough': 'periods up to 8 per axis; pupil <= min(4, N); all nested centred windows',
 }
 ASSUMPTIONS = ['1/alpha is an integer N >= pupil size on each axis (the property\'s commensurate regime); sum |a|^2 > 0 for normalize_power',
@@ -100,6 +100,39 @@ def run_full(W, cfg):
     acc = o.insert(W.zeros((Nr, Nc)), weight=wt)
     W.ob('accumulated with a weight: total = weight x input power', W.sum(acc[i, j] for i in range(Nr) for j in range(Nc)), wt * power)
     again = o.intensity                  # forming the image a second time from the same wavefront
+    if cfg['method'] == 'dft' and not cfg.get('seg'):
+        nr, nc = cfg['n']
+
+        def after_other_samplings():
+            # the transform of one geometry after transforms of the same shapes with another sampling on one axis only, another
+            # shift, another offset (state kept between calls must not leak from one sampling into the next): concrete-only
+            import numpy as _np
+            L = W.lentil
+            rng = _np.random.default_rng(11)
+            g = rng.normal(size=(nr, nc)) + 1j * rng.normal(size=(nr, nc))
+            p0 = float(_np.sum(_np.abs(g) ** 2))
+            ar, ac = 1.0 / Nr, 1.0 / Nc
+            for primer in ({'alpha': (ar, ac * 0.75)}, {'alpha': (ar * 0.75, ac)}, {'alpha': (ar, ac), 'shift': (0.5, 0)},
+                           {'alpha': (ar, ac), 'shift': (0, 0.5)}, {'alpha': (ar, ac), 'offset': (1, 0)}, {'alpha': (ar, ac), 'offset': (0, 1)},
+                           {'alpha': (ac, ar)}):
+                L.fourier.dft2(g, shape=(Nr, Nc), **primer)
+                F = L.fourier.dft2(g, (ar, ac), shape=(Nr, Nc))
+                if abs(float(_np.sum(_np.abs(F) ** 2)) - p0) > 1e-9 * p0:
+                    return False
+            # and through the propagator: per-axis output sampling changed on one axis, then the full period
+            amp = rng.uniform(0.5, 1.5, (nr, nc))
+            lam_, f_, dx_ = 5e-7, 2.0, (1e-3, 1.5e-3)
+            du_ = (lam_ * f_ * os / (Nr * dx_[0]), lam_ * f_ * os / (Nc * dx_[1]))
+            pw = float(_np.sum(amp ** 2))
+            for scale in ((1, 1.25), (1.25, 1), (1, 1)):
+                wv = L.Wavefront(lam_) * L.Pupil(amplitude=amp, pixelscale=dx_, focal_length=f_)
+                L.propagate_dft(wv, pixelscale=(du_[0] * scale[0], du_[1] * scale[1]), shape=shape, oversample=os)
+                wv = L.Wavefront(lam_) * L.Pupil(amplitude=amp, pixelscale=dx_, focal_length=f_)
+                tot = float(_np.sum(L.propagate_dft(wv, pixelscale=du_, shape=shape, oversample=os).intensity))
+                if abs(tot - pw) > 1e-9 * pw:
+                    return False
+            return True
+        W.ob_concrete('full period after transforms of the same shapes with another sampling / shift / offset: total = input power', after_other_samplings)
     W.ob('total intensity, read a second time', W.sum(again[i, j] for i in range(Nr) for j in range(Nc)), power)
 
 
